@@ -278,7 +278,7 @@ def snapshot(root_obj, after_pickle=False):
         rels = tuple((r.key, val(d[r.key])) for r in mapper.relationships if r.key in d)
         lc = lifecycle(st)
         if not after_pickle:
-            lc = {"pending": "transient", "persistent": "detached"}.get(lc, lc)
+            lc = {"pending": "transient", "persistent": "detached", "deleted": "detached"}.get(lc, lc)
         key = st.key and (st.key[0].__name__, tuple(st.key[1]), st.key[2])
         committed = tuple(sorted((k, val(v)) for k, v in st.committed_state.items()))
         opts = tuple(canon_option(o) for o in (st.load_options or ()))
@@ -382,6 +382,30 @@ def graph(obj):
     return order
 
 
+def session_side_knowledge(u, members):
+    """reasons why the session knows something about these instances that their own
+    pickle cannot carry (the one-step bisimulation is then not meaningful):
+    a collection removal pending in some *other* object's attribute history, or a
+    second instance of the same identity living in the session"""
+    from sqlalchemy.orm import attributes
+
+    ids = {id(m) for m in members}
+    for x in list(u.s) + list(members):
+        st = inspect(x)
+        for r in st.mapper.relationships:
+            h = attributes.get_history(x, r.key, passive=attributes.PASSIVE_NO_INITIALIZE)
+            for y in h.deleted or ():
+                if y is not None and id(y) in ids:
+                    return "pending-removal"
+    for m in members:
+        k = inspect(m).key
+        if k is not None:
+            other = u.s.identity_map.get(k)
+            if other is not None and other is not m:
+                return "other-instance-of-identity-in-session"
+    return None
+
+
 def attach_original(u, obj):
     """baseline universe: the original stays where it is (session.add() is still called, see below)"""
     try:
@@ -409,7 +433,7 @@ core_md = sa.MetaData()
 T1 = sa.Table("t1", core_md, sa.Column("id", sa.Integer, primary_key=True), sa.Column("a", sa.Integer), sa.Column("b", sa.String(10)),
               sa.Column("d", sa.Numeric(10, 2)), sa.Column("ok", sa.Boolean(create_constraint=False)), sa.Column("ts", sa.DateTime))
 T2 = sa.Table("t2", core_md, sa.Column("id", sa.Integer, primary_key=True), sa.Column("t1_id", sa.ForeignKey("t1.id")), sa.Column("a", sa.Integer),
-              sa.Column("note", sa.String(10)))
+              sa.Column("note", sa.String(10), key="nt"))  # key != name: the serializer must address columns by key
 
 
 def core_engine():
@@ -425,7 +449,7 @@ def core_engine():
             dict(id=2, a=None, b="y", d=None, ok=False, ts=None),
             dict(id=3, a=1, b=None, d=decimal.Decimal("-2.25"), ok=None, ts=datetime.datetime(1999, 12, 31, 23, 59, 59, 5)),
         ])
-        conn.execute(T2.insert(), [dict(id=1, t1_id=1, a=7, note="n1"), dict(id=2, t1_id=1, a=None, note=None), dict(id=3, t1_id=3, a=1, note="n3")])
+        conn.execute(T2.insert(), [dict(id=1, t1_id=1, a=7, nt="n1"), dict(id=2, t1_id=1, a=None, nt=None), dict(id=3, t1_id=3, a=1, nt="n3")])
         conn.execute(P.__table__.insert(), [dict(id=1, name="a", note="n"), dict(id=2, name=None, note=None)])
         conn.execute(C.__table__.insert(), [dict(id=1, pid=1, v=5), dict(id=2, pid=1, v=6), dict(id=3, pid=2, v=None)])
     return e
@@ -452,7 +476,7 @@ def statements():
         ("in_empty", lambda: sa.select(T1.c.id).where(T1.c.id.in_([])), "core"),
         ("between_like", lambda: sa.select(T1.c.id).where(T1.c.id.between(1, 2), T1.c.b.like("%x%")), "core"),
         ("alias", lambda: sa.select(t1a.c.id, t1a.c.b).where(t1a.c.id > 1).order_by(t1a.c.id), "core"),
-        ("join", lambda: sa.select(T1.c.b, T2.c.note).select_from(_j()).order_by(T2.c.id), "core"),
+        ("join", lambda: sa.select(T1.c.b, T2.c.nt).select_from(_j()).order_by(T2.c.id), "core"),
         ("outerjoin", lambda: sa.select(T1.c.id, T2.c.id).select_from(T1.outerjoin(T2, T1.c.id == T2.c.t1_id)).order_by(T1.c.id, T2.c.id), "core"),
         ("group", lambda: sa.select(T1.c.a, sa.func.count().label("n")).group_by(T1.c.a).having(sa.func.count() >= 1).order_by(T1.c.a), "core"),
         ("distinct_limit", lambda: sa.select(T1.c.a).distinct().order_by(T1.c.a).limit(2).offset(1), "core"),
@@ -466,6 +490,8 @@ def statements():
         ("func_null", lambda: sa.select(sa.func.coalesce(T1.c.b, "-").label("b"), sa.null().label("nul"), sa.true().label("t")).order_by(T1.c.id), "core"),
         ("textcols", lambda: sa.text("select id, b from t1 order by id").columns(T1.c.id, T1.c.b), "core"),
         ("text_bind", lambda: sa.text("select id from t1 where id > :lo order by id").bindparams(lo=1), "core"),
+        ("text_dup", lambda: sa.text("select t1.a, t2.a, t1.id, t2.id from t1 join t2 on t1.id = t2.t1_id order by t2.id"), "core"),
+        ("nolabel_dup", lambda: sa.select(T1.c.a, T2.c.a, T2.c.id).select_from(_j()).order_by(T2.c.id).set_label_style(sa.LABEL_STYLE_NONE), "core"),
         ("orm_entity", lambda: sa.select(P).order_by(P.id), "orm"),
         ("orm_cols", lambda: sa.select(P.id, P.name).order_by(P.id), "orm"),
         ("orm_entity_col", lambda: sa.select(P, C.v).join(P.children).order_by(C.id), "orm"),
@@ -478,10 +504,10 @@ def statements():
         ("orm_load_only", lambda: sa.select(C).options(load_only(C.v)).order_by(C.id), "orm"),
         ("orm_path2", lambda: sa.select(C).options(joinedload(C.parent).selectinload(P.children)).order_by(C.id), "orm"),
         ("orm_where", lambda: sa.select(C).where(C.parent.has(P.name == "a")).order_by(C.id), "orm"),
-        ("ins", lambda: T2.insert().values(id=10, t1_id=2, a=5, note="new"), "dml"),
-        ("ins_returning", lambda: T2.insert().values(id=11, t1_id=2, a=5, note="r").returning(T2.c.id, T2.c.note), "dml"),
-        ("upd", lambda: T2.update().where(T2.c.a.is_(None)).values(a=T2.c.id + 100, note="u"), "dml"),
-        ("upd_corr", lambda: T2.update().values(note=sa.select(T1.c.b).where(T1.c.id == T2.c.t1_id).scalar_subquery()), "dml"),
+        ("ins", lambda: T2.insert().values(id=10, t1_id=2, a=5, nt="new"), "dml"),
+        ("ins_returning", lambda: T2.insert().values(id=11, t1_id=2, a=5, nt="r").returning(T2.c.id, T2.c.nt), "dml"),
+        ("upd", lambda: T2.update().where(T2.c.a.is_(None)).values(a=T2.c.id + 100, nt="u"), "dml"),
+        ("upd_corr", lambda: T2.update().values(nt=sa.select(T1.c.b).where(T1.c.id == T2.c.t1_id).scalar_subquery()), "dml"),
         ("del", lambda: T2.delete().where(T2.c.id.in_(sa.select(T2.c.id).where(T2.c.a == 7))), "dml"),
     ]
     return out
